@@ -226,3 +226,7 @@ def run(m):
                 bad = (src, got, want)
     return {"failing": bad is not None, "witness": "tablerow-structure", "call": bad[0] if bad else "sweep n<7, cols<5", "result": bad[1] if bad else "ok", "expected": str(bad[2]) if bad else ""}
 '''
+
+
+bounded("C13", "bounded/C13.py")
+not_covered("C13", "cols:0 / non-numeric cols (no documented reference behaviour; C02 only requires a Liquid error)", "ForNode/TablerowNode.render_to_output and LoopExpression.evaluate are covered by the bounded template-level check (sync and async), not by their own symbolic contract")
